@@ -54,6 +54,8 @@ OPAQUE = [
     r"^alloc::alloc::exchange_malloc$",
     r"^std::boxed::box_new_uninit$|^std::boxed::box_assume_init_into_vec_unsafe",
     r"^<Ident as (std::fmt::)?Display>::fmt$",
+    # a node that reads the variable store directly (instead of resolving a child) gets an arbitrary answer
+    r"^(state::)?RuntimeState::variable$", r"^context::Context::<'_>::state$", r"^(variable::)?Variable::ident$",
 ]
 
 
